@@ -228,6 +228,45 @@ func genCase(r *vh.Rand, thorough bool) string {
 					emit("CC %d", k)
 				}
 			}
+		case x < 143:
+			// one batch whose requests have different timeouts (long ones first, a short one
+			// later), confirmation outstanding beyond the gc horizon (ctx.High = tick+30), gc runs
+			// while the long ones are still waiting; then late confirmation / deadline / close
+			long := []uint64{100, 100, 1 << 32}[r.Intn(3)]
+			for k := 0; k < 1+r.Intn(2); k++ {
+				emit("R %d %d", long, r.Intn(4))
+				nreq++
+			}
+			for k := 0; k < 1+r.Intn(2); k++ {
+				emit("R %d %d", []uint64{1, 2, 3, 5}[r.Intn(4)], r.Intn(4))
+				nreq++
+			}
+			if r.Chance(1, 4) {
+				emit("R %d %d", long, r.Intn(4))
+				nreq++
+			}
+			emit("TR")
+			nctx++
+			c := gctx{nctx, tick + 30}
+			ctxs = append(ctxs, c)
+			emit("AR %d %d", c.lo, c.hi)
+			tick += uint64(31 + r.Intn(40))
+			emit("T %d", tick)
+			emit("RA 0")
+			if r.Chance(1, 2) {
+				tick += uint64(2 + r.Intn(3))
+				emit("T %d", tick)
+				emit("RA 0")
+			}
+			switch r.Intn(3) {
+			case 0:
+				emit("RY %d %d %d", c.lo, c.hi, 5)
+				emit("RA 5")
+			case 1:
+				tick += 200
+				emit("T %d", tick)
+				emit("RA 0")
+			}
 		case x < 146:
 			// read pipeline as node.handleReadIndex runs it: batch 1 taken and added, batch 2
 			// taken and added (the queue has flipped twice), then further reads that land in
@@ -247,6 +286,8 @@ func genCase(r *vh.Rand, thorough bool) string {
 				emit("R %d %d", []uint64{2, 3, 5, 100}[r.Intn(4)], r.Intn(4))
 				nreq++
 			}
+		case x < 148:
+			emit("QS %d", []int{1, 1, 1, 0}[r.Intn(4)])
 		default:
 			// a client that polls and releases right away
 			i := r.Intn(nreq + 1)
